@@ -5,41 +5,54 @@ notes ("copy into `dir/`"); runs tools/validate_seeded.py (sequentially: it patc
 the notes say the race detector is needed; prints one summary line per change."""
 import os, re, glob, sys, subprocess, json
 n = sys.argv[1]
-only = set(sys.argv[2:])
+import concurrent.futures
+jobs = 1
+args = sys.argv[2:]
+if '-j' in args:
+    i = args.index('-j'); jobs = int(args[i+1]); del args[i:i+2]
+only = set(args)
 m = {'generic': 'driver/generic', 'netconf': 'driver/netconf', 'network': 'driver/network', 'channel': 'channel', 'transport': 'transport',
      'platform': 'platform', 'util': 'util', 'response': 'response', 'options': 'driver/options', 'opoptions': 'driver/opoptions', 'logging': 'logging'}
 done = set(os.listdir('/verif/seeded'))
+work = []
 for d in sorted(os.listdir(f'/tmp/wtout{n}')):
     if not re.match(r'C\d\d$', d):
         continue
     for mm in ('m1', 'm2'):
-        p = f'/tmp/wtout{n}/{d}/{mm}'
-        sid = f'{d}-r{n}{mm}'
-        if only and sid not in only:
-            continue
-        if sid in done and not only:
-            continue
-        if not os.path.isfile(p + '/patch.diff'):
-            print(sid, 'NO PATCH'); continue
-        fs = glob.glob(p + '/*_test.go')
-        if len(fs) != 1:
-            print(sid, 'MANUAL: demo files', fs); continue
-        s = open(fs[0]).read()
-        tests = re.findall(r'^func (Test\w+)', s, re.M)
-        pkg = re.search(r'^package (\w+)', s, re.M).group(1)
-        base = pkg[:-5] if pkg.endswith('_test') else pkg
-        dirn = m.get(base)
-        notes = open(p + '/notes.md').read() if os.path.exists(p + '/notes.md') else ''
-        if dirn is None:
-            mo = re.search(r'`([\w/]+)/?`', notes)
-            dirn = base
-        race = ['--race'] if re.search(r'-race', notes) and re.search(r'only.{0,60}-race|without `?-race`? .{0,40}pass|race detector', notes) and d in ('C07', 'C20') else []
-        cmd = ['python3', '/verif/tools/validate_seeded.py', p, sid, d, dirn, '--run', '^(' + '|'.join(tests) + ')$', '--timeout', '240'] + race
-        r = subprocess.run(cmd, capture_output=True, text=True)
-        mp = f'/verif/seeded/{sid}/meta.json'
-        if os.path.exists(mp):
-            me = json.load(open(mp))
-            print(sid, dirn, 'clean=' + str(me.get('demo_on_clean_tree')), 'changed=' + str(me.get('demo_with_change')), 'suite=' + str(me.get('suite_with_change')),
-                  'own=' + str(me.get('detected_by_own_property_check')), 'by=' + ','.join(sorted((me.get('checks_reporting') or {}).keys())), flush=True)
-        else:
-            print(sid, 'NO META', r.stdout[-300:], r.stderr[-300:], flush=True)
+        work.append((d, mm))
+
+def one(dm):
+    d, mm = dm
+    p = f'/tmp/wtout{n}/{d}/{mm}'
+    sid = f'{d}-r{n}{mm}'
+    if only and sid not in only:
+        return None
+    if sid in done and not only:
+        return None
+    if not os.path.isfile(p + '/patch.diff'):
+        return f'{sid} NO PATCH'
+    fs = glob.glob(p + '/*_test.go')
+    if len(fs) != 1:
+        return f'{sid} MANUAL: demo files {fs}'
+    s = open(fs[0]).read()
+    tests = re.findall(r'^func (Test\w+)', s, re.M)
+    pkg = re.search(r'^package (\w+)', s, re.M).group(1)
+    base = pkg[:-5] if pkg.endswith('_test') else pkg
+    dirn = m.get(base)
+    notes = open(p + '/notes.md').read() if os.path.exists(p + '/notes.md') else ''
+    if dirn is None:
+        dirn = base
+    race = ['--race'] if re.search(r'-race', notes) and re.search(r'only.{0,60}-race|without `?-race`? .{0,40}pass|race detector', notes) and d in ('C07', 'C20') else []
+    cmd = ['python3', '/verif/tools/validate_seeded.py', p, sid, d, dirn, '--run', '^(' + '|'.join(tests) + ')$', '--timeout', '240'] + race
+    r = subprocess.run(cmd, capture_output=True, text=True)
+    mp = f'/verif/seeded/{sid}/meta.json'
+    if os.path.exists(mp):
+        me = json.load(open(mp))
+        return ' '.join([sid, dirn, 'clean=' + str(me.get('demo_on_clean_tree')), 'changed=' + str(me.get('demo_with_change')), 'suite=' + str(me.get('suite_with_change')),
+              'own=' + str(me.get('detected_by_own_property_check')), 'by=' + ','.join(sorted((me.get('checks_reporting') or {}).keys()))])
+    return f'{sid} NO META {r.stdout[-300:]} {r.stderr[-300:]}'
+
+with concurrent.futures.ThreadPoolExecutor(max_workers=jobs) as ex:
+    for line in ex.map(one, work):
+        if line:
+            print(line, flush=True)
